@@ -78,9 +78,16 @@ func runC09(c *harness.Ctx, idx int) {
 	}
 	seed := r.Uint64()
 	omitR := gen.New(seed)
+	dupRate := 0
+	if r.Chance(1, 3) {
+		dupRate = 1 + r.Intn(3)
+	}
 	retypeRate := r.Intn(3) // some fields arrive with their id but another wire type: not an occurrence
 	msg := ref.EncodeWith(s, v.Elem(), &ref.EncodeOpts{Order: r.Perm, Omit: func(_ *schema.Struct, f *schema.Field) bool {
 		return rate > 0 && omitR.Intn(10) < rate
+	}, Dup: func(_ *schema.Struct, f *schema.Field) bool {
+		// a repeated occurrence of one field never stands in for another, missing one
+		return dupRate > 0 && f.T.K != schema.Map && omitR.Intn(10) < dupRate
 	}, Replace: func(_ *schema.Struct, f *schema.Field) []byte {
 		if retypeRate == 0 || omitR.Intn(12) >= retypeRate {
 			return nil
